@@ -29,3 +29,7 @@
     pub open spec fn f3_free(&self) -> bool {
         forall|u: UUID| #[trigger] self.db().appts.contains_key(u) && self.cache().index@.contains_key(self.db().appts[u].locator) ==> self.db().trackers.contains_key(u)
     }
+    // nothing observable changed (maps compared by their views)
+    pub open spec fn same_state(&self, o: &Watcher) -> bool {
+        self.others_same(o) && self.dbm.inner == o.dbm.inner && self.responder == o.responder && self.gatekeeper.unchanged(&o.gatekeeper)
+    }
